@@ -262,6 +262,11 @@ CORPUS = [
     ("text/calendar", IC % b"RRULE:FREQ=DAILY;COUNT=3\r\nEXDATE:20200102T000000Z\r\nRDATE:20200105T000000Z\r\n", True),
     ("text/calendar", IC % b"SUMMARY:a\x02b\r\n", False),                             # control character other than FF / SOH
     ("text/calendar", IC % b"LOCATION:a\x7fb\r\n", False),                            # DEL
+    # one complete card with extra material on ONE side (vobject.readOne stops after the first component, so only
+    # the frame check stands between these and the store)
+    ("text/vcard", (VC % b"") + b"BEGIN:VCARD\r\nVERSION:3.0\r\nFN:x\r\n", False),      # + a truncated second card
+    ("text/vcard", (VC % b"") + b"and some text\r\n", False),                           # + arbitrary text
+    ("text/vcard", b"NOTE:before\r\n" + (VC % b""), False),                             # a content line before BEGIN
 ]
 
 
